@@ -1,11 +1,12 @@
 -------------------------------- MODULE C04 --------------------------------
 (* C04 - eval fails only with JSError: positioned JSSyntaxError or a runtime JSError.  *)
-(*   MC    : LexerFSM over all class strings up to length N (three 13-class alphabets):  *)
+(*   MC    : LexerFSM over all class strings up to length N (four 13-class alphabets):   *)
 (*           progress (position strictly increases, at most one epsilon move per          *)
 (*           character), position sanity, the deviations explain every difference        *)
 (*           between the as-is machine and the reference.                                 *)
 (*   Enum  : the same strings (S->C), the adversarial argument vectors of the built-in    *)
-(*           grid.                                                                        *)
+(*           grid, the literal / statement families (long numeric literals, braced         *)
+(*           unicode escapes, statement head x misplaced operand, misplaced jumps).        *)
 (*   Judge : token streams / error positions of the real lexer, outcome typing of every   *)
 (*           evaluation (front-end soup, corpus prefixes, mutations, built-in grid).      *)
 EXTENDS LexerFSM, JsGrammar, JsVal, Json, IOUtils
@@ -18,8 +19,9 @@ EnvInt(nm, dflt) == IF nm \in DOMAIN IOEnv THEN
 AlphaA == <<"sp", "nl", "g", "1", "q", "Q", "bs", "/", "*", "[", "]", "+", "#">>      \* comments, strings, regex
 AlphaB == <<"0", "1", "9", "x", "e", "a", "u", ".", "+", "q", "bs", "{", "}">>         \* numbers, escapes
 AlphaC == <<"=", "<", ">", "!", "&", "*", "+", "/", "g", "b", "o", "0", "7">>          \* punctuators, radix prefixes
-Alpha(pf) == CASE pf = "A" -> AlphaA [] pf = "B" -> AlphaB [] pf = "C" -> AlphaC
-Profiles == IF "PROFILE" \in DOMAIN IOEnv THEN {IOEnv.PROFILE} ELSE {"A", "B", "C"}
+AlphaD == <<"ud", "1", "0", ".", "e", "x", "g", "q", "bs", "u", "sp", "+", "/">>       \* decimal digits of other scripts (class ud)
+Alpha(pf) == CASE pf = "A" -> AlphaA [] pf = "B" -> AlphaB [] pf = "C" -> AlphaC [] pf = "D" -> AlphaD
+Profiles == IF "PROFILE" \in DOMAIN IOEnv THEN {IOEnv.PROFILE} ELSE {"A", "B", "C", "D"}
 MaxLen == EnvInt("MAXLEN", IF Quick THEN 4 ELSE 6)
 \* sequences the reference would read as ES2021 tokens the engine does not have (&&= ||=): not generated
 HasSubseq(inp, pat) == \E si \in 1..(Len(inp) - Len(pat) + 1) : SubSeq(inp, si, si + Len(pat) - 1) = pat
@@ -44,11 +46,16 @@ McLaws == ph = "done" =>
             /\ r1.fired = {} /\ r2.fired = {}
 \* an error, once raised, is final and lies at or before the current position (checked on every prefix too)
 McPrefix == ph = "build" => LET st == RunFrom(St0(TRUE), inp, {}) IN st.pos = Len(inp) /\ st.mxi <= 1
-McEmit == ph # "done" \/ ~Supported(inp) \/ inp = <<>> \/ PrintT(ToJson([kind |-> "cls", pf |-> pf, cls |-> inp]))
+\* alphabet D shares twelve classes with A / B / C: only its strings that contain the class ud are replayed into the engine
+\* (the laws are checked on all of them)
+HasUd(cs) == \E ci \in 1..Len(cs) : cs[ci] = "ud"
+McEmit == ph # "done" \/ ~Supported(inp) \/ inp = <<>> \/ (pf = "D" /\ ~HasUd(inp))
+          \/ PrintT(ToJson([kind |-> "cls", pf |-> pf, cls |-> inp]))
 
 \* ---------------- the argument grid of the built-in check -----------------------------------
-ArgClasses == <<"undefined", "null", "nan", "inf", "ninf", "m1", "zero", "p31", "p53", "e21", "half", "s7", "sx", "obj", "arr", "fn">>
-QuickArgClasses == <<"undefined", "null", "nan", "inf", "m1", "zero", "p31", "e21", "half", "s7", "sx", "obj", "arr", "fn">>
+\* sparen = "(" and sbrack = "[": strings that are malformed as a pattern (match / search / split / replace / RegExp take patterns)
+ArgClasses == <<"undefined", "null", "nan", "inf", "ninf", "m1", "zero", "p31", "p53", "e21", "half", "s7", "sx", "sparen", "sbrack", "obj", "arr", "fn">>
+QuickArgClasses == <<"undefined", "null", "nan", "inf", "m1", "zero", "p31", "e21", "half", "s7", "sx", "sparen", "sbrack", "obj", "arr", "fn">>
 ArgSet == LET sq == IF Quick THEN QuickArgClasses ELSE ArgClasses IN {sq[ai] : ai \in 1..Len(sq)}
 ArgVectors == {<<>>} \cup {<<xa>> : xa \in ArgSet} \cup {<<xa, ya>> : xa \in ArgSet, ya \in ArgSet}
 Huge == {"p31", "p53", "e21"}
@@ -59,6 +66,143 @@ CallSupported(fname, args) == ~(fname \in Allocating /\ \E ai \in 1..Len(args) :
 GridInit == ph = "start" /\ pf = "" /\ inp = <<>> /\ rec_i = 0
 GridNext == ph = "start" /\ ph' = "vec" /\ (\E av \in ArgVectors : inp' = av) /\ UNCHANGED <<pf, rec_i>>
 GridEmit == ph # "vec" \/ PrintT(ToJson([kind |-> "vec", pf |-> "", cls |-> inp]))
+
+\* ---------------- literal / statement families (S->C) -----------------------------------------------------------
+\* (a) numeric literals of many digits: form x number of digits x digit x embedding.  The text is rendered by the driver
+\*     (LONG_FORMS / LONG_EMBEDS of checks/c04_driver.py: n digits of the radix in the named position).  A numeric literal
+\*     of any length is a number (Infinity or the rounded value): 309 digits is where a decimal integer leaves the doubles,
+\*     400 / 401 is the engine's own switch of conversion routine, 4300 / 4301 the host's integer-string conversion limit.
+LongForms == {"dec", "decdot", "frac", "dotfrac", "intfrac", "exp", "expneg", "exphuge", "decexp", "hex", "hexup", "oct", "bin"}
+LongLens == IF Quick THEN {309, 400, 401, 4300, 4301, 5000, 20000}
+            ELSE {17, 22, 308, 309, 310, 400, 401, 1100, 4299, 4300, 4301, 4302, 5000, 20000, 50000}
+LongDigits == {"lo", "hi"}                            \* the digit 1 / the largest digit of the radix
+LongEmbeds == {"expr", "neg", "arg", "key", "index"}
+NumberEmbeds == {"expr", "neg", "arg"}                \* the value of the program is the value of the literal (or its negation / absolute value)
+\* every case is a record [kind, name, src, ds, n, digit, embed] (fields a family does not use are empty)
+LongCases == {[kind |-> "long", name |-> fm, src |-> "", ds |-> <<>>, n |-> nn, digit |-> dg, embed |-> em] :
+                 fm \in LongForms, nn \in LongLens, dg \in LongDigits, em \in LongEmbeds}
+
+\* (b) braced unicode escapes \u{H}: hex digit sequences x carrier.  A code point is at most 0x10FFFF; leading zeros are allowed,
+\*     at least one digit is required.
+Rp(dd, nn) == [ii \in 1..nn |-> dd]
+EscDigits == {<<>>, <<0>>, <<4, 1>>, Rp(0, 6) \o <<4, 1>>, <<13, 8, 0, 0>>, <<13, 15, 15, 15>>, Rp(15, 4), <<1>> \o Rp(0, 4), <<1, 15, 6, 0, 0>>,
+              <<1, 0>> \o Rp(15, 4), <<0, 0, 1, 0>> \o Rp(15, 4), <<1, 1>> \o Rp(0, 4), Rp(15, 6), <<7>> \o Rp(15, 7), <<8>> \o Rp(0, 7),
+              Rp(15, 8), <<1>> \o Rp(0, 8), <<1>> \o Rp(0, 16), Rp(15, 18), Rp(0, 20) \o <<1>>}
+HexUp == <<"0", "1", "2", "3", "4", "5", "6", "7", "8", "9", "A", "B", "C", "D", "E", "F">>
+HexLo == <<"0", "1", "2", "3", "4", "5", "6", "7", "8", "9", "a", "b", "c", "d", "e", "f">>
+RECURSIVE EscText(_, _)
+EscText(ds, tbl) == IF ds = <<>> THEN "" ELSE tbl[Head(ds) + 1] \o EscText(Tail(ds), tbl)
+RECURSIVE EscStrip(_)
+EscStrip(ds) == IF ds # <<>> /\ Head(ds) = 0 THEN EscStrip(Tail(ds)) ELSE ds
+RECURSIVE EscVal(_)
+EscVal(ds) == IF ds = <<>> THEN 0 ELSE EscVal(SubSeq(ds, 1, Len(ds) - 1)) * 16 + ds[Len(ds)]
+EscOk(ds) == LET sg == EscStrip(ds) IN ds # <<>> /\ Len(sg) <= 6 /\ EscVal(sg) <= 1114111
+EscCarriers == {[n |-> "sq", pre |-> "'\\u{", post |-> "}'", tbl |-> HexUp],
+                [n |-> "dq", pre |-> "\"\\u{", post |-> "}\"", tbl |-> HexLo],
+                [n |-> "sqmid", pre |-> "var t = 'a\\u{", post |-> "}b'; t", tbl |-> HexUp],
+                [n |-> "dqcat", pre |-> "\"\\u{41}\" + \"\\u{", post |-> "}\"", tbl |-> HexUp],
+                [n |-> "key", pre |-> "({'\\u{", post |-> "}': 1})", tbl |-> HexUp],
+                [n |-> "ident", pre |-> "var \\u{", post |-> "} = 1", tbl |-> HexUp],
+                [n |-> "identpart", pre |-> "var a\\u{", post |-> "} = 1", tbl |-> HexUp],
+                [n |-> "prop", pre |-> "({}).\\u{", post |-> "}", tbl |-> HexUp],
+                [n |-> "regex", pre |-> "/\\u{", post |-> "}/.test('a')", tbl |-> HexUp],
+                [n |-> "regexu", pre |-> "/\\u{", post |-> "}/u.test('a')", tbl |-> HexLo],
+                [n |-> "regexcls", pre |-> "/[\\u{", post |-> "}]/u.test('a')", tbl |-> HexUp],
+                [n |-> "newregexp", pre |-> "new RegExp('\\\\u{", post |-> "}', 'u').test('a')", tbl |-> HexUp]}
+StringCarriers == {"sq", "dq", "sqmid", "dqcat"}      \* the program is a string literal (or a concatenation of two): its value is a string
+EscCases == {[kind |-> "esc", name |-> ca.n, src |-> ca.pre \o EscText(dd, ca.tbl) \o ca.post, ds |-> dd, n |-> 0, digit |-> "", embed |-> ""] :
+                ca \in EscCarriers, dd \in EscDigits}
+
+\* (c) statement head x misplaced operand: every position of a statement (or expression) that requires a binding, a reference
+\*     or a label, filled with every kind of operand.  Outcome typing only (+ position sanity of a front-end error).
+StmtHeads == {[n |-> "forin", pre |-> "for (", post |-> " in {}) {}"],            [n |-> "forof", pre |-> "for (", post |-> " of []) {}"],
+              [n |-> "forinvar", pre |-> "for (var ", post |-> " in {a: 1}) {}"],  [n |-> "forofvar", pre |-> "for (var ", post |-> " of [1]) {}"],
+              [n |-> "forin1", pre |-> "for (", post |-> " in {a: 1}) ;"],        [n |-> "forof1", pre |-> "for (", post |-> " of [1]) ;"],
+              [n |-> "forinit", pre |-> "for (", post |-> "; false; ) {}"],        [n |-> "forvarinit", pre |-> "for (var ", post |-> "; false; ) {}"],
+              [n |-> "forinfn", pre |-> "function h() { for (", post |-> " in {a: 1}) {} } h()"],
+              [n |-> "catch", pre |-> "try { throw 1 } catch (", post |-> ") {}"], [n |-> "catchbare", pre |-> "try { throw 1 } catch ", post |-> " {}"],
+              [n |-> "var", pre |-> "var ", post |-> " = 1"],                       [n |-> "varbare", pre |-> "var ", post |-> ""],
+              [n |-> "fnparam", pre |-> "function h(", post |-> ") {}"],           [n |-> "fnexprparam", pre |-> "(function (", post |-> ") {})"],
+              [n |-> "arrowparams", pre |-> "(", post |-> ") => 1"],               [n |-> "arrowparam", pre |-> "", post |-> " => 1"],
+              [n |-> "fnname", pre |-> "function ", post |-> "() {}"],             [n |-> "fnexprname", pre |-> "(function ", post |-> "() {})"],
+              [n |-> "assign", pre |-> "", post |-> " = 1"],                        [n |-> "opassign", pre |-> "", post |-> " += 1"],
+              [n |-> "postinc", pre |-> "", post |-> "++"],                         [n |-> "preinc", pre |-> "++", post |-> ""],
+              [n |-> "predec", pre |-> "--", post |-> ""],                          [n |-> "delete", pre |-> "delete ", post |-> ""],
+              [n |-> "label", pre |-> "", post |-> ": ;"],                          [n |-> "labelloop", pre |-> "", post |-> ": while (0) ;"],
+              [n |-> "break", pre |-> "x: while (0) { break ", post |-> " }"],    [n |-> "continue", pre |-> "x: while (0) { continue ", post |-> " }"],
+              [n |-> "breaktop", pre |-> "break ", post |-> ";"],                  [n |-> "continuetop", pre |-> "continue ", post |-> ";"],
+              [n |-> "objkey", pre |-> "({", post |-> ": 1})"],                    [n |-> "objshort", pre |-> "({", post |-> "})"],
+              [n |-> "getter", pre |-> "({get ", post |-> "() {}})"],              [n |-> "setterparam", pre |-> "({set a(", post |-> ") {}})"],
+              [n |-> "member", pre |-> "a.", post |-> ""],                          [n |-> "new", pre |-> "new ", post |-> ""],
+              [n |-> "case", pre |-> "switch (1) { case ", post |-> ": }"],        [n |-> "default", pre |-> "switch (1) { default ", post |-> ": }"],
+              [n |-> "arraypat", pre |-> "[", post |-> "] = [1]"],                 [n |-> "objpat", pre |-> "({a: ", post |-> "} = {a: 1})"],
+              [n |-> "forinright", pre |-> "for (a in ", post |-> ") {}"],         [n |-> "throw", pre |-> "throw ", post |-> ""],
+              [n |-> "return", pre |-> "return ", post |-> ""],                     [n |-> "let", pre |-> "let ", post |-> " = 1"],
+              [n |-> "forlet", pre |-> "for (let ", post |-> " of []) {}"],        [n |-> "forconst", pre |-> "for (const ", post |-> " in {}) {}"]}
+Operands == {"", "1", "1.5", "'s'", "null", "true", "this", "f()", "a.b()", "new f", "a+b", "-a", "typeof a", "a++", "(1)", "(a)", "((a))",
+             "a = 1", "(a = 1)", "a, b", "(a, b)", "a ? b : c", "[a]", "[a, b]", "{a}", "({a})", "{a: b}", "a.b", "a[0]", "f().a", "this.a",
+             "a", "x", "in", "of", "var", "var a", "function", "function(){}", "x => x", "()", "...a", "/r/", "NaN", "arguments", "get",
+             "a b", "a;", "a)", "(a", "{", "}", ";", ",", "=", "'", "\\u0061", "a\nb", "/* c */ a", "// c"}
+StmtCases == {[kind |-> "stmt", name |-> hd.n, src |-> hd.pre \o op \o hd.post, ds |-> <<>>, n |-> 0, digit |-> "", embed |-> ""] :
+                 hd \in StmtHeads, op \in Operands}
+
+\* (d) misplaced jumps: break / continue / return (with a known label x, an unknown label y) x every place a statement can stand
+Jumps == {"break", "continue", "return", "return 1", "break x", "continue x", "break y", "continue y", "break\nx", "throw 1"}
+Places == {<<"", ";">>, <<"{ ", "; }">>, <<"x: ", ";">>, <<"x: { ", "; }">>, <<"x: x: ", ";">>, <<"a: x: c: ", ";">>, <<"if (1) ", ";">>, <<"x: if (1) ", ";">>,
+           <<"if (0) ", "; else ", ";">>, <<"switch (1) { case 1: ", "; }">>, <<"x: switch (1) { default: ", "; }">>,
+           <<"switch (1) { case 1: while (0) {} ", "; }">>, <<"function h() { ", "; } h()">>, <<"(function () { ", "; })()">>,
+           <<"while (1) { (function(){ ", "; })(); break; }">>, <<"x: while (1) { (function(){ ", "; })(); break; }">>,
+           <<"try { ", "; } catch (e) {}">>, <<"try { throw 1 } catch (e) { ", "; }">>, <<"try {} finally { ", "; }">>, <<"x: try { ", "; } finally {}">>,
+           <<"while (1) { try { ", "; } finally { break; } }">>, <<"while (1) { ", "; break; }">>, <<"x: while (1) { ", "; break; }">>,
+           <<"do { ", "; } while (0)">>, <<"x: do ", "; while (0)">>, <<"do x: ", "; while (0)">>, <<"for (;;) { ", "; break; }">>, <<"x: for (;;) ", ";">>,
+           <<"for (var k in {a: 1}) { ", "; }">>, <<"for (var k of [1]) { ", "; }">>, <<"x: for (var k in {a: 1}) { ", "; }">>,
+           <<"(() => { ", "; })()">>, <<"var g = () => ", ";">>, <<"x: y: while (1) { ", "; break; }">>, <<"x: { while (1) { ", "; break; } }">>,
+           <<"while (1) { x: { ", "; } break; }">>, <<"while (0) x: ", ";">>, <<"function h() { x: while (1) { ", "; break; } } h()">>,
+           <<"x: function g() { ", "; }">>, <<"var o = { m: function() { ", "; } }; o.m()">>, <<"var o = { get a() { ", "; } }; o.a">>,
+           <<"new (function() { ", "; })()">>, <<"[1].forEach(function() { ", "; })">>,
+           <<"while (1) { switch (1) { case 1: ", "; } break; }">>, <<"x: while (1) { switch (1) { case 1: ", "; } break; }">>,
+           <<"new Function('", "')()">>}
+RECURSIVE Fill(_, _)
+Fill(pieces, jp) == IF Len(pieces) = 1 THEN pieces[1] ELSE pieces[1] \o jp \o Fill(Tail(pieces), jp)
+JumpCases == {[kind |-> "stmt", name |-> jp, src |-> Fill(pl, jp), ds |-> <<>>, n |-> 0, digit |-> "", embed |-> ""] : jp \in Jumps, pl \in Places}
+
+\* (e) line terminator x lexical context.  ECMA-262 LineTerminator = LF, CR, LS (U+2028), PS (U+2029); CR LF is one line break.
+\*     Every one of them ends a single-line comment and may not stand in a regular expression literal; LF and CR may not stand in
+\*     a string literal (LS / PS may, since ES2019); backslash + line terminator sequence inside a string is a line continuation.
+\*     The text is pre \o <the terminator> \o post, rendered by the driver (LT_TEXT: TLA+ source is ASCII).
+LineTerms == {"lf", "cr", "crlf", "ls", "ps"}
+LtContexts == {[n |-> "comment", pre |-> "// c", post |-> "@"],          [n |-> "comment2", pre |-> "var a = 1; // c", post |-> "a = ;"],
+               [n |-> "string", pre |-> "'a", post |-> "b'"],            [n |-> "dstring", pre |-> "var t = \"a", post |-> "b\"; t"],
+               [n |-> "regex", pre |-> "/a", post |-> "b/.test('a')"],   [n |-> "regexcls", pre |-> "/[a", post |-> "]/.test('a')"],
+               [n |-> "regexesc", pre |-> "/a\\", post |-> "b/.test('a')"],
+               [n |-> "strcont", pre |-> "'a\\", post |-> "b'"],         [n |-> "ws", pre |-> "1", post |-> "+ 1"],
+               [n |-> "commentws", pre |-> "1 // c", post |-> "+ 1"],    [n |-> "blockcomment", pre |-> "/* c", post |-> "*/ 1"],
+               [n |-> "after", pre |-> "a = 1", post |-> "@"],           [n |-> "aftertwo", pre |-> "a = 1;", post |-> "b = 2;" ],
+               [n |-> "postfix", pre |-> "var c = 1; c", post |-> "++c"], [n |-> "return", pre |-> "(function () { return", post |-> "1 })()"],
+               [n |-> "unterminated", pre |-> "a = 1;", post |-> "'abc"]}
+LtMustReject(ctx, lt) == \/ ctx \in {"comment", "comment2", "regex", "regexcls", "regexesc"}
+                         \/ ctx \in {"string", "dstring"} /\ lt \in {"lf", "cr", "crlf"}
+LtMustBeString(ctx, lt) == ctx = "strcont" \/ (ctx \in {"string", "dstring"} /\ lt \in {"ls", "ps"})
+LtCases == {[kind |-> "lt", name |-> cx.n, src |-> cx.pre, ds |-> <<>>, n |-> 0, digit |-> lt, embed |-> cx.post] : cx \in LtContexts, lt \in LineTerms}
+
+FamCases == LongCases \cup EscCases \cup StmtCases \cup JumpCases \cup LtCases
+FamInit == ph = "fstart" /\ pf = "" /\ inp = <<>> /\ rec_i = 0
+FamNext == ph = "fstart" /\ ph' = "fam" /\ (\E cs \in FamCases : inp' = cs) /\ UNCHANGED <<pf, rec_i>>
+FamEmit == ph # "fam" \/ PrintT(ToJson(inp))
+\* laws of the families' own reference: the validity of an escape value agrees with the code point range wherever the value fits
+\* an integer; every rendered program is a non-empty text; the families have the announced sizes
+FamLaw == /\ ph = "fam" /\ inp.kind = "esc" =>
+               /\ (Len(inp.ds) \in 1..6 => (EscOk(inp.ds) <=> EscVal(inp.ds) <= 1114111))
+               /\ (EscOk(inp.ds) => EscOk(<<0>> \o inp.ds)) /\ (inp.ds # <<>> /\ ~EscOk(inp.ds) => ~EscOk(<<0>> \o inp.ds))
+               /\ (inp.ds = <<>> => ~EscOk(inp.ds))
+               /\ (Len(EscStrip(inp.ds)) >= 7 => ~EscOk(inp.ds))
+               /\ inp.src # ""
+          /\ ph = "fam" /\ inp.kind = "stmt" => inp.src # ""
+          /\ ph = "fam" /\ inp.kind = "lt" => ~(LtMustReject(inp.name, inp.digit) /\ LtMustBeString(inp.name, inp.digit))
+          /\ ph = "fstart" => /\ Cardinality(LongCases) = Cardinality(LongForms) * Cardinality(LongLens) * 10
+                              /\ Cardinality(EscCases) = Cardinality(EscCarriers) * Cardinality(EscDigits)
+                              /\ \E ec \in EscCases : EscOk(ec.ds) /\ EscVal(EscStrip(ec.ds)) = 1114111
+                              /\ \E ec \in EscCases : ~EscOk(ec.ds) /\ EscStrip(ec.ds) = <<1, 1, 0, 0, 0, 0>>
 
 \* ---------------- token sequences over the expression vocabulary (S->C, acceptor) ---------------------------
 \* Bound <= 4: within it JsGrammar!ParseStmtsD covers every ECMAScript program over this vocabulary (arrow functions
@@ -79,7 +223,10 @@ TokLaw == ph = "tseq" => LET res == ParseStmtsD(inp, {}) IN
             /\ (res.ok => ParseStmtsD(inp, ParserDevs).ok)                        \* the as-is parser accepts a superset
 
 \* ---------------- Judge ------------------------------------------------------------------------
-\* records: [id, kind, cls, toks, lex, out, lens, fname, args]
+\* records: [id, kind, cls, toks, lex, out, lens, fname, args, vk, ds, lens2]
+\*   lens2 = line lengths when LF is taken for the only line terminator (kind "lt"; lens there counts LF, CR, CR LF, LS, PS)
+\*   vk   = kind of the value Context.eval returned ("num", "str", "bool", "none", "obj"; "" when not observed)
+\*   ds   = hex digits of the escape (kind "esc")
 \*   lex  = [o: "tokens" | "syntax" | other, line, col]      what Lexer(src).tokenize() did   (kind "cls")
 \*   toks = tokens of the real lexer as [k, line, col]
 \*   out  = [o, line, col, steps, type, where]               what Context.eval(src) did (steps = interpreter steps executed)
@@ -188,8 +335,49 @@ JudgeCall(r) ==
   IF ~CallSupported(r.fname, r.args) THEN [v |-> "unsupported", dev |-> "", why |-> "allocating call with a huge argument"]
   ELSE Typing(r, <<0>>)
 
+\* a numeric literal of many digits (fname = form, args = <<embedding, digit>>) is a number
+JudgeLong(r) ==
+  LET ty == Typing(r, r.lens) IN
+  IF ty.v # "pass" THEN ty
+  ELSE IF r.out.o # "value" THEN Mis("", "a numeric literal of many digits is not evaluated")
+  ELSE IF r.args[1] \in NumberEmbeds /\ r.vk # "num" THEN Mis("", "the value of a numeric literal of many digits is not a number")
+  ELSE Pass
+\* \u{H} (fname = carrier): in a string literal a string if H <= 0x10FFFF, a front-end JSSyntaxError otherwise; elsewhere
+\* (identifiers: not supported by the engine; regular expressions: a runtime error is allowed) outcome typing only
+JudgeEsc(r) ==
+  LET ty == Typing(r, r.lens) IN
+  IF ty.v # "pass" THEN ty
+  ELSE IF r.fname \notin StringCarriers THEN Pass
+  ELSE IF EscOk(r.ds) THEN (IF r.out.o = "value" /\ r.vk = "str" THEN Pass
+                            ELSE Mis("", "a string literal with a code point escape <= 0x10FFFF is not a string"))
+  ELSE IF r.out.o = "syntax" /\ r.out.steps = 0 THEN Pass
+  ELSE Mis("", "a code point escape beyond 0x10FFFF (or without digits) accepted in a string literal")
+\* statement head x misplaced operand, misplaced jumps: outcome typing, position sanity of a front-end error
+JudgeStmt(r) == Typing(r, r.lens)
+
+\* line terminator x context (fname = context, args = <<terminator>>).  As-is rule Dev_LineTerminatorLFOnly: the lexer knows LF
+\* only (CR, LS, PS do not end a comment, a string or a regular expression literal, and do not advance the line).
+JudgeLt(r) ==
+  LET out == r.out
+      lt == r.args[1]
+      asis == lt \in {"cr", "ls", "ps"}
+      dv == IF asis THEN "Dev_LineTerminatorLFOnly" ELSE "" IN
+  IF ~InJSErrorFamily(out) THEN Mis(HostDevOf(r), "outcome outside the JSError family")
+  ELSE IF out.o = "syntax" /\ out.steps = 0 /\ ~PosSaneL(r.lens, out.line, out.col)
+       THEN (IF asis /\ PosSaneL(r.lens2, out.line, out.col) THEN Mis(dv, "syntax error position: lines counted by LF only")
+             ELSE Mis("", "syntax error position outside the source"))
+  ELSE IF LtMustReject(r.fname, lt) /\ ~(out.o = "syntax" /\ out.steps = 0)
+       THEN (IF out.o = "value" THEN Mis(dv, "a line terminator inside a comment / string / regular expression literal does not end it")
+             ELSE Mis("", "malformed source not rejected by the front end"))
+  ELSE IF LtMustBeString(r.fname, lt) /\ ~(out.o = "value" /\ r.vk = "str") THEN Mis("", "a string literal with a line continuation / LS / PS is not a string")
+  ELSE Pass
+
 Verdict(r) ==
   CASE r.kind = "cls" -> JudgeCls(r)
+    [] r.kind = "lt" -> JudgeLt(r)
+    [] r.kind = "long" -> JudgeLong(r)
+    [] r.kind = "esc" -> JudgeEsc(r)
+    [] r.kind = "stmt" -> JudgeStmt(r)
     [] r.kind = "src" -> JudgeSrc(r)
     [] r.kind = "call" -> JudgeCall(r)
     [] r.kind = "toks" -> JudgeToks(r)
